@@ -74,14 +74,7 @@ func (p *Proxy) ServeTCP(in net.Conn) error {
 		}
 	}
 
-	errc := make(chan error, 2)
-	cp := func(dst io.Writer, src io.Reader, c gkm.Counter) {
-		errc <- copyBuffer(dst, src, c)
-	}
-
-	go cp(in, out, t.RxCounter)
-	go cp(out, in, t.TxCounter)
-	err = <-errc
+	err = tunnel(in, in, out, t.RxCounter, t.TxCounter)
 	if err != nil && err != io.EOF {
 		log.Print("[WARN]: tcp:  ", err)
 		return err
